@@ -122,6 +122,26 @@ example : let alg : Alg Nat Unit := { populate := fun _ c => ((), .run c), onEnd
     let o := run alg (init () (some 2) 1 3) [.create 0 7, .create 1 8, .endT 0 .invalid, .create 2 9, .create 0 5]
     o.trials.length = 2 ∧ (match (create alg o 3 0).2 with | .stopped => true | _ => false) = true ∧ remaining o = some 0 := by decide
 
+/-- a restart may configure ANOTHER budget (extend a search, or cut it short): the reloaded oracle works with the budget configured
+now — not with the one of the run that wrote the files — and, when that budget is not already exceeded by the trials on disk, no request
+list takes the number of trials beyond it (the seeded change C02-H restored the old budget from `oracle.json`) -/
+theorem budget_after_reload_with_another_budget (alg : Alg V A) (o cfg : Oracle V A) (d : Disk V A) (h : Inv o) (hd : DiskOK o d)
+    (hcfg : cfg.maxRetries = o.maxRetries ∧ cfg.maxConsec = o.maxConsec ∧ cfg.aborted = o.aborted)
+    (m' : Nat) (hm : cfg.maxTrials = some m') (hge : o.trials.length ≤ m') (ops : List Op) :
+    ∃ r, reload cfg d = some r ∧ r.maxTrials = some m' ∧ (run alg r ops).trials.length ≤ m' := by
+  -- the same disk is consistent with the old state re-labelled with the new budget (the budget is not part of the files)
+  have h' : Inv { o with maxTrials := some m' } :=
+    { h with budget := by intro m hmm; simp only [Option.some.injEq] at hmm; subst hmm; exact hge }
+  have hd' : DiskOK { o with maxTrials := some m' } d := ⟨hd.ofile, hd.tfiles⟩
+  obtain ⟨r, hr, hb⟩ := budget_after_reload alg { o with maxTrials := some m' } cfg d h' hd' ⟨hm, hcfg.1, hcfg.2.1, hcfg.2.2⟩ m' rfl ops
+  refine ⟨r, hr, ?_, hb⟩
+  simp only [reload] at hr
+  split at hr
+  · cases hr
+  · split at hr
+    · cases hr
+    · cases hr; exact hm
+
 /-- restart at tuner level: `BaseTuner` reloads only when its own state file exists, and writes that file at the end of every
 `on_trial_end`. For every number of trials and EVERY crash point of the search's write sequence the restarted tuner knows every
 trial the disk records as ended (so `remaining_trials = N − n` goes on holding across the restart) — except in the window
